@@ -148,7 +148,7 @@ def run(ctx, out):
                 "kinds, bytes, link text, mode, mtime ns, xattrs, owner) must equal the reference run's; every trace is projected "
                 "to open/block/finalise/inline events and judged by ConcOutcome.history_ok inside Coq; non-trivial = run with >= 2 "
                 "workers and a multi-block file; plus second copies with --backup numbered over the result of a first copy, many files "
-                "with confusable names (non-UTF-8 twins, backup-like suffixes), same comparison across drivers / workers / seeds; plus trees of directories, FIFOs and files whose creations are held so that they overlap (modes of directories and nodes compared too); distinct = (case, driver, workers, seed)")
+                "with confusable names (non-UTF-8 twins, backup-like suffixes), same comparison across drivers / workers / seeds; plus trees of directories, FIFOs and files whose creations are held so that they overlap (modes of directories and nodes compared too); plus a copy onto a 512 KiB tmpfs that fills up, every driver / worker count / block size; distinct = (case, driver, workers, seed)")
     ncases = 6 if quick else 40
     seeds = [1, 2, 3] if quick else list(range(1, 11))
     worker_sets = [1, 2, 4, 16] if quick else [1, 2, 3, 4, 8, 16, 64]
@@ -328,6 +328,39 @@ def run(ctx, out):
                 out.violation("destination differs from the reference run (driver %s, %d workers) while nodes and directories were "
                               "created side by side: %s" % (driver, w, "; ".join(what)), rep)
         shutil.rmtree(d, ignore_errors=True)
+    # ---- a destination that FILLS UP (a 512 KiB tmpfs: no kernel copy across file systems, and the write that hits the limit is
+    #      short): whether the run fails must not depend on the driver, the worker count or the block size — and exit 0 still
+    #      means every byte is there
+    import subprocess
+    mnt = os.path.join(d0, "small")
+    os.makedirs(mnt)
+    mounted = subprocess.run(["mount", "-t", "tmpfs", "-o", "size=512k,mode=777", "tmpfs", mnt], capture_output=True).returncode == 0
+    if not mounted:
+        out.count("small_tmpfs_unavailable")
+    else:
+        try:
+            srcf = os.path.join(d0, "seven.bin")
+            fsutil.make_file(srcf, 700000, [(0, 700000)], tag=77, sync=False)
+            seen = {}
+            for driver in ("parfile", "parblock"):
+                for (w, bsopt) in ((1, ["--no-progress"]), (4, ["--no-progress"]), (2, ["--block-size", "65536"]), (4, ["--block-size", "262144"])):
+                    for f in os.listdir(mnt):
+                        os.unlink(os.path.join(mnt, f))
+                    argv = [ctx.bins["xcp"], "--driver", driver, "-w", str(w)] + bsopt + [srcf, os.path.join(mnt, "seven.bin")]
+                    r = xcp.run_plain(argv, d0)
+                    out.case(("full-destination", driver, w, tuple(bsopt)), True)
+                    out.count("full_destination_runs")
+                    rep = dict(kind="700000 bytes onto a 512 KiB tmpfs", argv=argv[1:], exit=r.exit, stderr=r.stderr[-200:])
+                    complete = os.path.exists(os.path.join(mnt, "seven.bin")) and open(os.path.join(mnt, "seven.bin"), "rb").read() == open(srcf, "rb").read()
+                    if r.exit == 0 and not complete:
+                        out.violation("exit 0 onto a destination that filled up, but the copy is not complete (driver %s, %d workers, %s)"
+                                      % (driver, w, " ".join(bsopt)), rep)
+                    seen[(driver, w, tuple(bsopt))] = (r.exit == 0)
+            if len(set(seen.values())) > 1:
+                out.violation("whether a copy onto a destination that fills up succeeds depends on the driver / worker count / block size: %s"
+                              % sorted((k_, "exit 0" if v else "failed") for k_, v in seen.items()), dict(kind="700000 bytes onto a 512 KiB tmpfs"))
+        finally:
+            subprocess.run(["umount", "-l", mnt], capture_output=True)
     if ctx.model_ok and minputs:
         res = core.run_model("run_history", minputs, shard=8, tag="c06")
         bad_names = {0: "no event", 1: "opened, never finalised", 2: "finalised", 3: "inline", 4: "out of order / repeated"}
